@@ -655,6 +655,7 @@ Section Refine.
     | TkCall _ _ => true
     | TkFiber _ _ _ => true
     | TkTops ts _ => forallb tf_top ts
+    | TkGen _ _ _ _ _ => true
     end.
 
   Lemma find_fn_in_tf ts i key body : forallb tf_top ts = true -> find_fn_in ts i key = Some body -> forallb tf_stmt body = true.
@@ -687,6 +688,7 @@ Section Refine.
     let fix ef_list (l : list stmt) : bool := match l with [] => true | a :: r => ef_stmt a && ef_list r end in
     match s with
     | SSetAttrFn _ _ _ => false
+    | SYield | SGen _ _ _ => false      (* generator fibers (round 7): compared by evaluation, not in the proved fragment *)
     | STry b | SBlock b | SLamCall b => ef_list b
     | _ => true
     end.
@@ -710,6 +712,7 @@ Section Refine.
     | TkCall _ _ => true
     | TkFiber _ _ _ => true
     | TkTops ts _ => forallb ef_top ts
+    | TkGen _ _ _ _ _ => false
     end.
 
   Lemma find_fn_in_ef ts i key body : forallb ef_top ts = true -> find_fn_in ts i key = Some body -> forallb ef_stmt body = true.
@@ -829,7 +832,7 @@ Section Refine.
   Proof.
     induction fuel as [|fuel IH]; intros cur depth tk sx0; [exact Logic.I|].
     assert (R0 : forall p, ils (ss sx0) p = ils (ss sx0) p) by reflexivity.
-    destruct tk as [l env|s env|env w|k f env|ts src]; cbn [srun_task].
+    destruct tk as [l env|s env|env w|k f env|ts src|gp segs fenv between env]; cbn [srun_task].
     - destruct l as [|s rest]; [simpl; auto|].
       pose proof (IH cur depth (SkExec1 s env) sx0) as H1.
       destruct (ST fuel cur depth (SkExec1 s env) sx0) as [e1 sx1| | | |]; auto.
@@ -894,6 +897,21 @@ Section Refine.
       + destruct (Nat.eqb depth fm); [simpl; auto|].
         pose proof (IH cur (S depth) (SkExec body ([] :: env)) sx0) as H1.
         destruct (ST fuel cur (S depth) (SkExec body ([] :: env)) sx0) as [e1 sx1|se1 sx1| | |]; auto.
+      + simpl. auto.
+      + apply SB_sget; [exact R0|]. intros _.
+        assert (Hk : forall u, SB sx0 (match u with
+                                       | SFn p key =>
+                                         match find_fn prog key with
+                                         | Some body => ST fuel cur depth (SkGen p (split_yield body) [[]] between env) sx0
+                                         | None => QIll "no such function"
+                                         end
+                                       | _ => QIll "not a function"
+                                       end)).
+        { intros u. destruct u; simpl; auto. destruct (find_fn prog f0); [apply IH|simpl; auto]. }
+        destruct (N.eqb a 0).
+        * apply SB_sget; [exact R0|]. exact Hk.
+        * apply SB_sresolve; [exact R0|]. intros w. destruct w; simpl; auto.
+          destruct (alookup _ (fn_name f)); [apply Hk|simpl; auto].
     - destruct w; simpl; auto. destruct (find_fn prog f); simpl; auto.
       destruct (Nat.eqb depth fm); [simpl; auto|].
       pose proof (IH p (S depth) (SkExec l [[]]) sx0) as H1.
@@ -910,6 +928,14 @@ Section Refine.
         apply (SB_trans sx0 sx1); auto.
       + apply (SB_trans sx0 (sset cur sx0 (var_name x) (SNum n))); [intros p; apply ils_set|apply IH].
       + apply (SB_trans sx0 (sset cur sx0 (fn_name f) (SFn cur (fn_key src f)))); [intros p; apply ils_set|apply IH].
+    - destruct segs as [|seg rest]; [simpl; auto|].
+      pose proof (IH gp 1 (SkExec seg fenv) sx0) as H1.
+      destruct (ST fuel gp 1 (SkExec seg fenv) sx0) as [e1 sx1|se1 sx1| | |]; try (simpl; exact Logic.I).
+      simpl in H1.
+      pose proof (IH cur depth (SkExec between ([] :: env)) sx1) as H2.
+      destruct (ST fuel cur depth (SkExec between ([] :: env)) sx1) as [e2 sx2|se2 sx2| | |]; auto.
+      + simpl in H2. apply (SB_trans sx0 sx2); [intros q; rewrite H2; apply H1|apply IH].
+      + simpl in *. intros q. rewrite H2. apply H1.
   Qed.
 
   (* ---- the main simulation, try-free programs ---- *)
@@ -2230,7 +2256,8 @@ Section Refine.
     induction fuel as [|fuel IH]; intros tk stk x sx G Hf Ht.
     { simpl. exact Logic.I. }
     pose proof (gg_inv _ _ G) as I. pose proof (Same_refl x) as Sx.
-    destruct tk as [l env|s env|env w|k f env|ts src]; destruct stk as [l' senv|s' senv|senv sw|k1 f1 senv|ts' src']; simpl in Ht; try contradiction;
+    destruct tk as [l env|s env|env w|k f env|ts src|gm gsegs gfenv gbetween genv];
+      destruct stk as [l' senv|s' senv|senv sw|k1 f1 senv|ts' src'|gp' gsegs' gfenv' gbetween' genv']; simpl in Ht; try contradiction;
       cbn [ef_task] in Hf.
     - (* a statement list *)
       destruct Ht as [<- He]. destruct l as [|s rest]; [apply simG_refl_normal; auto|].
@@ -2291,6 +2318,9 @@ Section Refine.
       + (* a function value leaves its module: not in the escape-free fragment *)
         simpl in Hf. discriminate.
       + rewrite ef_lam in Hf. apply (simG_lamcall fuel x sx env senv body IH G He Hf).
+      + (* Fiber.yield / a generator fiber: not in the proved fragment *)
+        simpl in Hf. discriminate.
+      + simpl in Hf. discriminate.
     - destruct Ht as (He & -> & Hw). apply simG_call; auto.
     - destruct Ht as (<- & <- & He). apply simG_fiber; auto.
     - destruct Ht as [<- <-]. destruct ts as [|t rest]; [apply simG_refl_normal; auto; constructor|].
@@ -2473,3 +2503,21 @@ Example ex_escape_refuted_registered :
   /\ ex_obs_reg ex_escape_reload_inside <> ex_spec ex_escape_reload_inside
   /\ ex_obs_reg ex_escape_reload_outside <> ex_spec ex_escape_reload_outside.
 Proof. vm_compute. repeat split; try reflexivity; intros H; discriminate. Qed.
+
+(* ---- a fiber whose FIRST frame is a function of another module (round 7) ----
+   main (x0 = 1) drives a generator function of m1 (x0 = 11): m1.f0 prints ITS x0, yields, sets its x0 = 77, prints it and
+   finishes; after every hand-back (the yield and the end) main prints its own x0, sets it to 5, prints it.  Neither side
+   ever sees the other's x0: 11 | 1 5 | 77 | 5 5 | and m1.x0 = 77 at the end. *)
+Definition ex_gen_cross : string :=
+  "0 20 0 1 5 1 0 22 101 0 3 0 4 0 5 3 0 0 7 101 0;0 20 0 11 21 0 3 0 19 4 0 77 3 0 0".
+(* the same generator driven by the BODY of m3 while m3 is still loading; resumed, it imports m3 inside a try: a cycle
+   reported inside the fiber (m3's body is in the caller chain of the resumed fiber), then it goes on in m1's globals *)
+Definition ex_gen_cycle : string :=
+  "0 20 0 1 5 1 0 5 3 0 7 101 0 3 0;0 20 0 11 21 0 3 0 19 13 5 3 2 7 2 0 0 4 0 12 3 0 0;1;0 20 0 31 5 1 0 22 101 0 3 0 0 1 32".
+
+Example ex_gen_obs :
+  ex_obs ex_gen_cross = mkobs ["11"; "1"; "5"; "77"; "5"; "5"; "77"] ["m1"] ObOk
+  /\ ex_obs ex_gen_cycle = mkobs ["11"; "31"; "<class ImportError>"; cyc_msg "m3"; "12"; "31"; "t32"; "12"; "1"] ["m1"; "m3"] ObOk
+  /\ ex_obs ex_gen_cross = ex_spec ex_gen_cross /\ ex_obs ex_gen_cycle = ex_spec ex_gen_cycle
+  /\ wf_prog (parse_prog ex_gen_cross) = true /\ wf_prog (parse_prog ex_gen_cycle) = true.
+Proof. vm_compute. repeat split; reflexivity. Qed.
